@@ -49,6 +49,13 @@ func (e *Engine) doCall(st *State, fr *Frame, in *ssa.Call) ([]*State, *Outcome)
 	fv := e.eval(st, fr, c.Value)
 	switch f := fv.(type) {
 	case *ClosureV:
+		if h, ok := externs[FuncKey(f.Fn)]; ok {
+			// an anonymous function with an assumed specification (bound variables are passed after the arguments)
+			e.usedExterns[FuncKey(f.Fn)] = true
+			rs, _ := h(e, st, fr, append(append([]Val{}, args...), f.Bind...), f.Fn, c)
+			e.bindResult(fr, in, rs)
+			return nil, nil
+		}
 		e.pushFrame(st, f.Fn, args, f.Bind, in)
 		return nil, nil
 	case *FuncV:
@@ -439,6 +446,22 @@ func (e *Engine) callContract(st *State, fr *Frame, fc *FuncContract, fn *ssa.Fu
 			st.ghost[g] = e.freshGhost(g)
 		}
 	}
+	// `mutates p`: the callee writes through pointer parameter p: its pointee gets fresh contents (described by the
+	// ensures clauses, which read p after the call); pointees of other pointer parameters are left alone, which the
+	// callee's own verification checks (frame.heap obligations)
+	for k := range fc.Dyn {
+		if !strings.HasPrefix(k, "mutates:") {
+			continue
+		}
+		pn := strings.TrimPrefix(k, "mutates:")
+		if pv, ok := env.vars[pn].(*PtrV); ok && pv.C != nil && len(pv.Path) == 0 {
+			if pt, isPtr := pv.T.(*types.Pointer); isPtr {
+				st.heap[pv.C.ID] = e.freshVal(st, shortTarget(fc.Target)+"_"+pn, pt.Elem(), 1)
+			} else if old, isStruct := st.heap[pv.C.ID].(*StructV); isStruct {
+				st.heap[pv.C.ID] = e.freshVal(st, shortTarget(fc.Target)+"_"+pn, old.T, 1)
+			}
+		}
+	}
 	// results
 	var rs []Val
 	if resTuple == nil && in != nil {
@@ -458,6 +481,12 @@ func (e *Engine) callContract(st *State, fr *Frame, fc *FuncContract, fn *ssa.Fu
 	}
 	for i, rn := range fc.Results {
 		if i < len(rs) {
+			if p := fc.Dyn["alias:"+rn]; p != "" {
+				// `alias result = param`: the returned pointer is the argument itself (verified in the callee)
+				if av, ok := env.vars[p]; ok {
+					rs[i] = av
+				}
+			}
 			env.vars[rn] = rs[i]
 		}
 	}
@@ -476,7 +505,7 @@ func (e *Engine) callContract(st *State, fr *Frame, fc *FuncContract, fn *ssa.Fu
 		if usesCallLog(en.E) {
 			continue
 		}
-		st.assume(e.evalBool(env, en.E))
+		e.assumeClause(st, env, en.E, en.Src, fc.Target, fc.Props)
 	}
 	rec := &CallRec{Callee: key, Short: shortTarget(fc.Target), Params: map[string]Val{}, Results: map[string]Val{}, Args: args, Rets: rs, Pre: pre, Post: map[string]*Term{}}
 	for k, v := range st.ghost {
